@@ -13,6 +13,11 @@ Three things are compared on every run:
    the matrix it produced: rank = number of columns = dimension formula, column space = column
    space of the full-indicator coding of the family (replicated complete-factorial data).
 
+Cases that contain a numeric atom with several columns (poly(v, 2), bs(v, df=3)) cannot use the exact
+integer machinery: their rank facts come from an SVD with thresholds far from both sides (see
+ASSUMPTIONS), the reference space is built from the atoms' contracts, the dimension formula counts
+the atom's columns (driver field "widths").
+
 Failures on the unchanged tree fall into the classes D6–D9 (+ D21); each is classified by a Lean guard
 predicate and must equal the model's prediction to count as a known finding.
 """
@@ -31,6 +36,19 @@ ASSUMPTIONS = [
     "independent on the replicates of every cell and scale(x) = x - 1 exactly), or the same grid "
     "moved by one half (float columns; the matrix times 4 is then integral); rows shuffled; level "
     "counts 2..4, and 1 in the one-level-factor cases",
+    "numeric atoms with several columns (poly(v, 2), bs(v, df=3); case kind 'multi-column-atoms'): four "
+    "distinct values per numeric variable ({0, 1, 2, 4} for x, {1, 2, 3, 6} for z, or moved by one half), "
+    "complete factorial x full grid; rank of X, of the reference F and of [X | F] by SVD on unit-length "
+    "columns, a relative singular value above 1e-7 counts as a direction, below 1e-11 as dependence, "
+    "anything in between is reported as a failure (measured on the unchanged tree: kept >= 1.2e-2, "
+    "dropped <= 3e-14); the reference F takes the numeric factor from the atom's contract, not from "
+    "the library: scale(v) = centred v, poly(v, d) = centred polynomials of degree <= d without "
+    "constant (C14: orthogonal to the constant, spanning with it the polynomials of degree <= d), "
+    "bs(v, df=3) = cubic polynomials vanishing at min v (Bernstein basis without its first element); "
+    "dimension formula with the atom's column count as a factor (Spec.C03.modelDimW / totalColumnsW, "
+    "executable only: C03_columns_count is proved for one-column numeric atoms); each such case is "
+    "observed in a freshly forked process, so a failing case does not depend on designs built before "
+    "it (history dependence is C07)",
     "component kinds (numeric / categoric) and Call-ness are taken from the generator's atom table "
     "and cross-checked against the implementation's component objects",
     "create_extra_term's deepcopy of a typed Call raises for every ordinary caller (the captured "
@@ -38,6 +56,7 @@ ASSUMPTIONS = [
     "is compared through a caller whose namespace holds only the data frame and design_matrices",
 ]
 TRUSTED = ["exact rank by integer (gcd-normalised) Gaussian elimination in harness/c03.py",
+           "numpy.linalg.svd / qr for the floating-point rank facts of the multi-column-atom cases",
            "pandas/numpy construction of the test frames and of the full-indicator reference matrix"]
 
 FINDING_OF_CLASS = [
@@ -61,6 +80,18 @@ NUM_VALUES = {"x": (0, 2), "z": (1, 3)}
 # integer, scale(x) = x - 1.5 is still exact, and a loss of the fractional part anywhere shows
 NUM_VALUES_HALF = {"x": (0.5, 2.5), "z": (1.5, 3.5)}
 GRID_SCALE = 4
+# cases with multi-column numeric atoms (poly(v, 2), bs(v, df=3)): four distinct values per numeric
+# variable (1, v, v^2, v^3 independent on the replicates of every cell; different location and spread
+# for x and z), as integers or moved by one half; judged in floating point
+NUM_VALUES_WIDE = {"x": (0, 1, 2, 4), "z": (1, 2, 3, 6)}
+NUM_VALUES_WIDE_HALF = {"x": (0.5, 1.5, 2.5, 4.5), "z": (1.5, 2.5, 3.5, 6.5)}
+GRIDS = {"int": NUM_VALUES, "half": NUM_VALUES_HALF, "wide": NUM_VALUES_WIDE,
+         "wide-half": NUM_VALUES_WIDE_HALF}
+# relative singular-value thresholds of the floating-point rank (columns scaled to unit length):
+# above RANK_TOL = independent direction, below RANK_ZERO = exact dependence up to rounding; a
+# singular value in between is reported, never silently assigned to either side
+RANK_TOL = 1e-7
+RANK_ZERO = 1e-11
 
 
 def atom_info(a):
@@ -72,7 +103,22 @@ def atom_info(a):
         return ("c", True, a[2:-1])
     if a.startswith("scale(") and a.endswith(")"):
         return ("n", True, a[6:-1])
+    if a.startswith(("poly(", "bs(")) and a.endswith(")"):
+        return ("n", True, a[a.index("(") + 1:-1].split(",")[0].strip())
     raise ValueError(a)
+
+
+def atom_width(a):
+    """number of columns of a numeric atom: poly(v, d) has d, bs(v, df=k) has k, the others one"""
+    if a.startswith("poly("):
+        return int(a[:-1].split(",")[1])
+    if a.startswith("bs("):
+        return int(a[:-1].split("df=")[1])
+    return 1
+
+
+def is_wide(case):
+    return str(case.get("grid", "int")).startswith("wide")
 
 
 # ------------------------------------------------------------------------------------------------
@@ -128,7 +174,7 @@ def get_frame(cats, nums, levels, shuffle_seed, grid="int"):
     if key in _FRAMES:
         return _FRAMES[key]
     rows = []
-    values = NUM_VALUES_HALF if grid == "half" else NUM_VALUES
+    values = GRIDS[grid]
     for cell in itertools.product(*[range(levels[c]) for c in cats]):
         for nv in itertools.product(*[values[v] for v in nums]):
             row = {c: f"{c}{i}" for c, i in zip(cats, cell)}
@@ -173,6 +219,73 @@ def full_indicator(df, terms, intercept, grid="int"):
 
 
 _RANKF = {}
+
+
+def numeric_reference(a, df):
+    """columns spanning the space of the numeric atom `a` on the rows of `df`, computed from the
+    atom's contract and not from the library: v itself; scale(v): v minus its mean; poly(v, d): the
+    polynomials of degree <= d in v without constant term, centred (poly's columns are orthogonal to
+    the constant and span, with it, the polynomials of degree <= d: C14); bs(v, df=3) (cubic, no
+    inner knot, no intercept column = the Bernstein basis on [min v, max v] without its first
+    element): the cubic polynomials that vanish at min v"""
+    import numpy as np
+    v = np.asarray(df[atom_info(a)[2]], dtype=float)
+    if a.startswith("scale("):
+        return [v - v.mean()]
+    if a.startswith("poly("):
+        cols = [v ** k - (v ** k).mean() for k in range(1, atom_width(a) + 1)]
+    elif a.startswith("bs("):
+        assert atom_width(a) == 3
+        cols = [(v - v.min()) ** k for k in (1, 2, 3)]
+    else:
+        return [v]
+    # an orthonormal basis of the same space (better conditioned than the powers themselves)
+    q, r = np.linalg.qr(np.column_stack(cols))
+    assert abs(np.diag(r)).min() > 1e-6 * abs(np.diag(r)).max(), "numeric grid too small for " + a
+    return [q[:, j] for j in range(q.shape[1])]
+
+
+def full_indicator_float(df, terms, intercept):
+    """the reference coding of `full_indicator` in floating point, numeric factors with several
+    columns included (every combination of one column per numeric atom)"""
+    import numpy as np
+    n = len(df)
+    cols = []
+    if intercept:
+        cols.append(np.ones(n))
+    for t in terms:
+        cat = [atom_info(a)[2] for a in t if atom_info(a)[0] == "c"]
+        num = [numeric_reference(a, df) for a in t if atom_info(a)[0] == "n"]
+        lvls = [sorted(set(df[c])) for c in cat]
+        data = [np.asarray(df[c]) for c in cat]
+        for combo in itertools.product(*lvls):
+            ind = np.ones(n)
+            for d, l in zip(data, combo):
+                ind = ind * (d == l)
+            for ncombo in itertools.product(*num):
+                col = ind.copy()
+                for q in ncombo:
+                    col = col * q
+                cols.append(col)
+    return np.column_stack(cols) if cols else np.zeros((n, 0))
+
+
+def float_rank(A):
+    """(rank, ambiguous?, smallest kept / largest dropped relative singular value) of a float matrix
+    whose columns are first scaled to unit length (scaling columns changes neither rank nor span)"""
+    import numpy as np
+    A = np.asarray(A, dtype=float)
+    if A.shape[1] == 0 or A.shape[0] == 0:
+        return 0, False, [None, None]
+    norms = np.linalg.norm(A, axis=0)
+    norms[norms == 0] = 1.0
+    sv = np.linalg.svd(A / norms, compute_uv=False)
+    rel = sv / sv[0] if sv[0] > 0 else sv
+    kept = rel[rel > RANK_TOL]
+    dropped = rel[rel <= RANK_TOL]
+    ambiguous = bool(((rel <= RANK_TOL) & (rel >= RANK_ZERO)).any())
+    return (int(len(kept)), ambiguous,
+            [float(kept.min()) if len(kept) else None, float(dropped.max()) if len(dropped) else None])
 
 
 # ------------------------------------------------------------------------------------------------
@@ -239,6 +352,26 @@ def observe(case):
     if M.ndim != 2:
         out["err"] = "matrix-not-2d"
         return out
+    if is_wide(case):
+        # multi-column numeric atoms: floating-point rank facts of X, F and [X | F]
+        out["float_path"] = True
+        out["integral"] = True
+        out["ncols"] = int(M.shape[1])
+        out["nrows"] = int(M.shape[0])
+        try:
+            labels = list(dm.common.as_dataframe().columns)
+        except Exception as e:  # noqa
+            labels = ["!" + type(e).__name__]
+        out["labels"] = labels
+        out["widths"] = [[name, int(sl.stop - sl.start)] for name, sl in dm.common.slices.items()]
+        F = full_indicator_float(df, terms, intercept)
+        rx, ax, gx = float_rank(M)
+        rf, af, gf = float_rank(F)
+        rj, aj, gj = float_rank(np.column_stack([M, F]))
+        out["rank"], out["rank_full"], out["rank_joint"] = rx, rf, rj
+        out["rank_ambiguous"] = bool(ax or af or aj)
+        out["sv_gaps"] = {"X": gx, "F": gf, "XF": gj}
+        return out
     if grid == "half":
         M = M * GRID_SCALE
     R = np.rint(M)
@@ -288,6 +421,24 @@ def _observe_many(cases):
 
 
 def run_impl(cases, procs):
+    """cases with stateful multi-column transforms (poly / bs) are each observed in a freshly forked
+    process, so that what is observed is a function of the case alone (a replay reproduces it);
+    whether one design disturbs a later one is the subject of C07"""
+    wide = [i for i, c in enumerate(cases) if is_wide(c)]
+    if wide and len(cases) > 1:
+        import multiprocessing as mp
+        out = [None] * len(cases)
+        with mp.get_context("fork").Pool(max(1, procs), maxtasksperchild=1) as pool:
+            for i, o in zip(wide, pool.map(observe, [cases[i] for i in wide], chunksize=1)):
+                out[i] = o
+        rest = [i for i in range(len(cases)) if out[i] is None]
+        for i, o in zip(rest, _run_impl_shared([cases[i] for i in rest], procs)):
+            out[i] = o
+        return out
+    return _run_impl_shared(cases, procs)
+
+
+def _run_impl_shared(cases, procs):
     if procs <= 1 or len(cases) < 400:
         return _observe_many(cases)
     import multiprocessing as mp
@@ -413,6 +564,31 @@ def gen_cases(tier, seed):
         if rng.random() < 0.3:
             fam = swap_atoms(rng, fam)
         cases.append(make_case(fam, rng.random() < 0.6, lv1, shuffle, "one-level-factor"))
+    # (i) numeric atoms with several columns: x, z swapped among plain / scale / poly(v, 2) / bs(v, df=3)
+    #     (at least one of the latter two), categorical atoms among plain / C / T / S; families over
+    #     {f, g, x, z} so that two such atoms on different variables meet in one formula, alone, in
+    #     interactions with factors and with each other, with and without the constant
+    wide_cases = []
+    subs_w = nonempty_subsets(["f", "g", "x", "z"])
+    n_i = 260 if tier == "quick" else 4000
+    for _ in range(n_i):
+        n = rng.choice([1, 2, 2, 3, 3])
+        fam = permute_factors(rng, rng.sample(subs_w, n))
+        used = {a for t in fam for a in t}
+        if not used & {"x", "z"}:
+            fam.append([rng.choice(["x", "z"])])
+            used = {a for t in fam for a in t}
+        mapping = {v: rng.choice([v, v, f"C({v})", f"T({v})", f"S({v})"]) for v in CAT_VARS}
+        while True:
+            for v in NUM_VARS:
+                mapping[v] = rng.choice([v, f"scale({v})", f"poly({v}, 2)", f"poly({v}, 2)",
+                                         f"bs({v}, df=3)", f"bs({v}, df=3)"])
+            if any(atom_width(mapping[v]) > 1 for v in NUM_VARS if v in used):
+                break
+        fam = [[mapping[a] for a in t] for t in fam]
+        c = make_case(fam, rng.random() < 0.5, levels, shuffle, "multi-column-atoms")
+        c["grid"] = "wide" if rng.random() < 0.5 else "wide-half"
+        wide_cases.append(c)
     if tier == "thorough":
         # (f) every ordered family over {f, g, h, x, z} in a random factor order
         for fam in ordered_families(subs5, 3):
@@ -433,7 +609,7 @@ def gen_cases(tier, seed):
         if rng.random() < 0.5 and any(t != "1" and any(atom_info(a)[0] == "n" for a in t)
                                       for t in c["terms"]):
             c["grid"] = "half"
-    return cases
+    return cases + wide_cases
 
 
 def pick_groups(tier, seed):
@@ -488,7 +664,9 @@ def explore(tier, seed, res=None, replay=None):
     res = res or Result()
     res.rule = ("non-trivial = the family has at least one term with a categorical factor and at "
                 "least two terms (counting the intercept), so that the redundancy analysis has a "
-                "choice to make; distinct by formula string / by group")
+                "choice to make; distinct by formula string / by group.  Atoms: plain variables, C / T / "
+                "S / scale calls (exact integer path) and poly(v, 2) / bs(v, df=3) as numeric atoms with "
+                "2 / 3 columns (floating-point rank path, numeric grids of four values)")
     procs = int(os.environ.get("VERIF_PROCS", "6" if tier == "quick" else "12"))
     procs = max(1, min(procs, os.cpu_count() or 1))
 
@@ -561,7 +739,9 @@ def explore(tier, seed, res=None, replay=None):
         design = None
         if "design" in io:
             design = [[n, [[cn, k, bool(fl)] for cn, k, fl, _ in comps]] for n, comps in io["design"]]
-        reqs.append({"op": "c03_pipe", "terms": family_terms(c),
+        widths = {a: atom_width(a) for t in c["terms"] if t != "1" for a in t
+                  if atom_info(a)[0] == "n" and atom_width(a) > 1}
+        reqs.append({"op": "c03_pipe", "terms": family_terms(c), "widths": widths,
                      # D9 is repaired in /repo (Call.__deepcopy__): the copy always succeeds
                      "env_copyable": True,
                      "levels": lv, "impl": design})
@@ -575,7 +755,7 @@ def explore(tier, seed, res=None, replay=None):
             case["clean_env"] = True
         if c.get("grid"):
             case["grid"] = c["grid"]
-            res.count("grid:half")
+            res.count("grid:" + c["grid"])
         if "md_err" in io or io.get("md") != c["terms"]:
             # the resolver did not produce the intended family: not a C03 case (term algebra, C02)
             res.count("skipped:resolver-family-differs")
@@ -612,8 +792,14 @@ def explore(tier, seed, res=None, replay=None):
             # a factor with one level makes some interval pieces zero-dimensional: the partition is
             # then sufficient but no longer necessary, and the matrix alone decides
             matrix_ok = (io["rank"] == io["ncols"] == io["rank_full"] == io["rank_joint"])
+            if io.get("float_path"):
+                facts["sv_gaps"] = io["sv_gaps"]
+                res.count("float-path (multi-column numeric atoms)")
             if not io["integral"]:
                 why = "harness assumption broken: matrix entries are not integers"
+            elif io.get("rank_ambiguous"):
+                why = ("floating-point rank not clear-cut: a singular value of X, F or [X | F] lies "
+                       f"between {RANK_ZERO} and {RANK_TOL} of the largest (nearly dependent columns)")
             elif len(io["labels"]) != io["ncols"] or sum(w for _, w in io["widths"]) != io["ncols"]:
                 why = "labels / slices do not match the number of columns"
             elif not mo.get("spec") and degenerate and matrix_ok:
@@ -639,7 +825,7 @@ def explore(tier, seed, res=None, replay=None):
         classes = mo["classes"]
         if why:
             finding = None
-            if i_view == m_view and not why.startswith(("bridge", "harness", "partitioning", "number",
+            if i_view == m_view and not why.startswith(("bridge", "harness", "partitioning", "number", "floating",
                                                         "labels")):
                 for cls, fid in FINDING_OF_CLASS:
                     if cls in classes:
